@@ -702,6 +702,18 @@ func (v *FnVC) evalCall(e *ECall, env *Env) Term {
 			v.fail("isType: cannot resolve %q", ts)
 		}
 		return boolT(fmt.Sprintf("(= (itag %s) %d)", a.S, v.tagOf(t)))
+	case "implements": // implements(x, "pkg.Iface"): the dynamic type of x implements the interface (false for nil)
+		a := v.evalTerm(e.Args[0], env)
+		ts := e.Args[1].(*EStr).V
+		t, _ := v.W.resolveType(ts, env.pkg)
+		if t == nil {
+			v.fail("implements: cannot resolve %q", ts)
+		}
+		it, ok := t.Underlying().(*types.Interface)
+		if !ok {
+			v.fail("implements: %q is not an interface", ts)
+		}
+		return boolT(fmt.Sprintf("(%s (itag %s))", v.implFunc(it, t), a.S))
 	case "$assert", "as": // x.(T) / as(x, "T")
 		a := v.evalTerm(e.Args[0], env)
 		ts := e.Args[1].(*EStr).V
